@@ -15,7 +15,7 @@
    All statements quantify over every destination kind, source kind, form,
    value, destination capacity and buffer content. *)
 From Coq Require Import ZArith Bool String Ascii List Floats.SpecFloat.
-From Verif Require Import Util Ints Strconv Floats Assign AssignSpec AssignText AssignMatrix AssignThms.
+From Verif Require Import Util Ints Strconv Floats AssignVal Assign AssignSpec AssignText AssignMatrix AssignThms.
 Import ListNotations.
 Local Open Scope Z_scope.
 
